@@ -16,7 +16,7 @@ CHECKS = {
    note=LANG_NOTE),
  "C08": dict(engine="langmc", cat="model_checking", ref="§2.3, §3 C08, §9",
    technique="bounded-exhaustive input enumeration in crash-isolated workers (termination, crash, determinism, located-error oracle); schedule part via controlled scheduler",
-   text="Every input of the finite spaces (alphabet strings incl. invalid UTF-8, structures x layouts, all truncations and edits, every byte value at every position of a few programs, short strings next to 70000-byte lines) is parsed twice in a worker process whose death or lack of progress is itself an observed outcome; errors must cite an in-range line and quote it. Schedule part: every interleaving of lexer goroutine and parser (controlled scheduler over the rewritten lexer) for all strings of <=3 (4) symbols.",
+   text="Every input of the finite spaces (alphabet strings incl. invalid UTF-8, structures x layouts, all truncations and edits, every byte value at every position of a few programs, short strings next to 70000-byte lines) is parsed twice in a worker process whose death or lack of progress is itself an observed outcome; errors must cite an in-range line and quote it. Schedule part: every interleaving of lexer goroutine and parser (controlled scheduler over the rewritten lexer) for all strings of <=3 (4) symbols. Supplementary: the same two goroutines free-running under the race detector over ~80000 inputs (reports only, never decides).",
    note=LANG_NOTE + " Hang detection: in-worker progress watchdog (25 s without completing a case that normally takes microseconds), confirmed twice on the single input."),
  "C11": dict(engine="langmc", cat="model_checking", ref="§2.3, §3 C11",
    technique="bounded-exhaustive input enumeration with format(format(x)) == format(x) oracle on the real formatter",
